@@ -97,6 +97,17 @@ func genFillVal(r *rand.Rand, n *Node, pbad float64, names *nameGen) FillVal {
 	if bad && r.Intn(3) == 0 { // wrong Go type altogether
 		return FillVal{Tok: []string{"x", "b:1", "f64:4607182418800017408", "i:0:7", "s:" + hxs("0b1")}[r.Intn(5)]}
 	}
+	// a string value for a numeric, boolean, binary or list slot renames the variable: to a new
+	// name, or (one time in three) to a name the template already uses — itself, a sibling of
+	// the same node, or a variable of another node (refused as a duplicate unless that very
+	// variable is replaced in the same call)
+	if n.Kind != "AV" && names != nil && r.Intn(12) == 0 {
+		nm := names.fresh(r)
+		if r.Intn(3) == 0 && len(names.used) > 1 {
+			nm = names.used[r.Intn(len(names.used)-1)]
+		}
+		return FillVal{Tok: strTok(nm), Slot: &Slot{IsVar: true, Name: nm}, Open: []varRef{{n, -2, nm}}}
+	}
 	switch n.Kind {
 	case "I":
 		if r.Intn(3) == 0 {
@@ -451,7 +462,7 @@ func suiteC09(c *Ctx) []Suite {
 				sessFirst := c.R.Intn(2) == 0
 				steps := []string{m.newStep()}
 				if sessFirst {
-					steps = append(steps, fmt.Sprintf("sess %d %s", m.Sid, hx(m.Sys)))
+					steps = append(steps, m.sessSteps(c.R))
 				}
 				half := len(keys) / 2
 				if c.R.Intn(2) == 0 && half > 0 {
@@ -460,7 +471,7 @@ func suiteC09(c *Ctx) []Suite {
 					steps = append(steps, "fill "+envTokens(asg, keys))
 				}
 				if !sessFirst {
-					steps = append(steps, fmt.Sprintf("sess %d %s", m.Sid, hx(m.Sys)))
+					steps = append(steps, m.sessSteps(c.R))
 				}
 				op := "mprog " + strings.Join(steps, " | ")
 				impl := implEval(op)
@@ -528,6 +539,43 @@ func genEllTemplate(r *rand.Rand, names *nameGen, depth, maxDepth int, ells *[]s
 		}
 	}
 	return n
+}
+
+// expandedSize: number of nodes and variable slots of the template after expanding the
+// ellipses that have a count in asg (own ellipsis: items before it repeated count+1 times).
+func expandedSize(n *Node, asg map[string]int) int {
+	if n.Kind != "L" {
+		k := 1
+		for _, s := range n.Slots {
+			if s.IsVar {
+				k++
+			}
+		}
+		return k
+	}
+	before, after, reps := 0, 0, 1
+	seen := false
+	for _, s := range n.Slots {
+		sz := 1
+		if s.Child != nil {
+			sz = expandedSize(s.Child, asg)
+		} else if s.IsVar && strings.HasPrefix(s.Name, "...") {
+			if v, ok := asg[s.Name]; ok && !seen {
+				seen = true
+				reps = v + 1
+				continue
+			}
+		}
+		if seen {
+			after += sz
+		} else {
+			before += sz
+		}
+	}
+	if !seen {
+		return 1 + before
+	}
+	return 1 + reps*before + after
 }
 
 // ellipsisOracle: intrinsic laws on the real code for one fill of the top-level ellipsis.
@@ -599,6 +647,13 @@ func ellipsisCases(c *Ctx, n int, maxDepth int, maxCount int) []Case {
 				if c.R.Intn(4) > 0 {
 					asg[e] = c.R.Intn(maxCount + 1)
 					keys = append(keys, e)
+				}
+			}
+			// keep the expanded tree small enough for the (quadratic) duplicate-name check of the
+			// model: nested counts multiply, 13^5 copies would keep the driver busy for hours
+			for expandedSize(tmpl, asg) > 2500 {
+				for _, k := range keys {
+					asg[k] /= 2
 				}
 			}
 			sort.Strings(keys)
@@ -682,6 +737,53 @@ func suiteC10(c *Ctx) []Suite {
 					}
 				}
 				out = append(out, Case{Op: strings.TrimSpace(op), Decisive: true, Oracle: oracle, Nontrivial: true, Tags: []string{"two-step"}}.fields(itemKeys))
+			}
+			return out
+		}},
+		{Name: "ellipsis/message-one-call", Gen: func(c *Ctx) []Case {
+			// DataMessage.FillVariables with ONE table holding the repeat counts and values for
+			// the names the expansion generates: the message-level result is the item-level one
+			var out []Case
+			for i := 0; i < c.N(500); i++ {
+				names := &nameGen{}
+				var ells []string
+				tmpl := genEllTemplate(c.R, names, 0, 2, &ells)
+				if len(ells) == 0 {
+					continue
+				}
+				env := map[string]interface{}{}
+				parts := []string{}
+				for _, e := range ells {
+					n := 1 + c.R.Intn(2)
+					env[e] = n
+					parts = append(parts, hxs(e), sintTok(0, int64(n)))
+				}
+				var gen []string
+				if pan, _ := safely(func() { gen = tmpl.Build().FillVariables(env).Variables() }); pan {
+					continue
+				}
+				// rename every generated (indexed) name in the same call
+				cnt := len(ells)
+				for k, g := range gen {
+					if strings.Contains(g, "[") && !strings.HasPrefix(g, "...") && c.R.Intn(3) > 0 {
+						nn := fmt.Sprintf("gen%d_%d", i, k)
+						env[g] = nn
+						parts = append(parts, hxs(g), strTok(nn))
+						cnt++
+					}
+				}
+				table := fmt.Sprint(cnt) + " " + strings.Join(parts, " ")
+				m := genMsgDesc(c.R, tmpl, 0)
+				m.HSMS = false
+				op := "mprog " + m.newStep() + " | fill " + table
+				impl := implEval(op)
+				cs := Case{Op: op, Impl: impl, Decisive: true, Nontrivial: cnt > len(ells), Tags: []string{fmt.Sprintf("one-call generated:%d", cnt-len(ells))}}.fields("vars")
+				// oracle on the real code: the item-level fill with the same table
+				itemRes := implEval("fillitem " + tmpl.Proto() + " | " + table)
+				if a, b := project(lastField(impl), "vars"), project(lastField(itemRes), "vars"); a != b && !strings.Contains(impl, "PANIC") {
+					cs.Oracle = "message-level fill differs from the item-level fill with the same table: " + firstDiff(a, b)
+				}
+				out = append(out, cs)
 			}
 			return out
 		}},
